@@ -10,6 +10,7 @@ import (
 	"testing"
 	"unicode/utf8"
 
+	"github.com/fatih/color"
 	"github.com/mattn/go-runewidth"
 	al "github.com/rhysd/actionlint"
 	"pgregory.net/rapid"
@@ -58,6 +59,7 @@ func sourceLine(src []byte, line int) (string, bool) {
 
 func checkRenderer(c *c16Render) (key, msg string, nontrivial bool) {
 	e := &al.Error{Message: c.Msg, Filepath: c.File, Line: c.Line, Column: c.Col, Kind: c.Kind}
+	color.NoColor = true // global switch of the colour library (NewLinter sets it from its options)
 	var buf bytes.Buffer
 	var f *al.ErrorTemplateFields
 	var pan any
